@@ -58,6 +58,9 @@ func mutateBytes(orig []byte, c *c19cliCase) []byte {
 		return append([]byte{}, orig[:c.Pos]...)
 	case "del":
 		return append(append([]byte{}, orig[:c.Pos]...), orig[c.Pos+1:]...)
+	case "ins":
+		// two more bytes (a file that grew: an id followed by further hex digits, a repeated separator)
+		return append(append(append([]byte{}, orig[:c.Pos]...), byte(c.Byte), byte(c.Byte)), orig[c.Pos:]...)
 	default:
 		m := append([]byte{}, orig...)
 		m[c.Pos] = byte(c.Byte)
@@ -101,7 +104,7 @@ func runC19CLI(base *sbx.Box, c *c19cliCase) error {
 		w.Close()
 		data = buf.Bytes()
 	default:
-		if c.Pos >= len(orig) && c.Kind != "trunc" {
+		if c.Pos >= len(orig) && c.Kind != "trunc" && c.Kind != "ins" {
 			return nil
 		}
 		data = mutateBytes(orig, c)
@@ -267,9 +270,19 @@ func TestC19CLI(t *testing.T) {
 			}
 			try(&c19cliCase{File: f, Kind: "trunc", Pos: i})
 			if i == len(orig) {
+				if !strings.HasPrefix(f, "objects/") {
+					for _, v := range []int{'a', '0', ' ', '\n'} {
+						try(&c19cliCase{File: f, Kind: "ins", Pos: i, Byte: v})
+					}
+				}
 				break
 			}
 			try(&c19cliCase{File: f, Kind: "del", Pos: i})
+			if !strings.HasPrefix(f, "objects/") {
+				for _, v := range []int{'a', '0', ' ', '\n'} {
+					try(&c19cliCase{File: f, Kind: "ins", Pos: i, Byte: v})
+				}
+			}
 			for _, v := range []int{int(orig[i] ^ 0x01), int(orig[i] ^ 0x80), 0x00, 0x20, 0x0a, 0xff} {
 				try(&c19cliCase{File: f, Kind: "sub", Pos: i, Byte: v})
 			}
